@@ -253,6 +253,37 @@ func init() {
 			}
 			return out, nil
 		}, "C12")
+		// sequences on both sides: lax is existential (some pair), strict makes
+		// any incomparable pair unknown whatever its position
+		seqVals := []wire.Value{wire.Float(1), wire.Float(2), wire.StrV("x"), wire.Null()}
+		var seqs [][]wire.Value
+		seqs = append(seqs, []wire.Value{})
+		for _, a := range seqVals {
+			seqs = append(seqs, []wire.Value{a})
+			for _, b := range seqVals {
+				seqs = append(seqs, []wire.Value{a, b})
+			}
+		}
+		u := &ExecUniverse{Vars: []VarsRow{{Vars: []wire.Var{}}}}
+		side := func(k string) []wire.Node {
+			return []wire.Node{{K: "root"}, {K: "key", S: wire.Bytes(k)}, {K: "anyarr"}}
+		}
+		for _, op := range append(append([]string{}, cmpOps...), "starts") {
+			r := side("b")
+			if op == "starts" {
+				r = []wire.Node{{K: "str", S: wire.Bytes("x")}}
+			}
+			u.Paths = append(u.Paths, PathRow{Pred: true, Chain: []wire.Node{{K: "bin", Op: op, L: side("a"), R: r}}})
+		}
+		for _, xs := range seqs {
+			for _, ys := range seqs {
+				u.Docs = append(u.Docs, DocRow{Doc: wire.Obj("a", wire.Value{T: "arr", A: xs}, "b", wire.Value{T: "arr", A: ys})})
+			}
+		}
+		u.cross([]bool{true, false})
+		rc.cov("sequence_cases", len(u.Cases))
+		rc.execFamily(u, "C12", "C01")
+
 		s := []string{}
 		for _, x := range slots {
 			s = append(s, x.V.Show())
